@@ -28,6 +28,19 @@ pub enum Payload {
     Tlvs(Vec<u8>, usize),
     /// not a value of the crate: one direct `io::Write::write` (then `flush`) on the writer
     Raw(Vec<u8>),
+    /// a user-defined `WriteToHeader` value that appends the bytes and returns the given number
+    /// (composite payloads return what they like: a count of items, 0, ...)
+    Custom(Vec<u8>, usize),
+}
+
+/// See `Payload::Custom`.
+pub struct CustomWrite<'a>(pub &'a [u8], pub usize);
+
+impl<'a> WriteToHeader for CustomWrite<'a> {
+    fn write_to(&self, writer: &mut Writer) -> io::Result<usize> {
+        io::Write::write_all(writer, self.0)?;
+        Ok(self.1)
+    }
 }
 
 /// `Writer` implements `io::Write`; this wraps one direct `write` + `flush` as a user-defined
@@ -143,6 +156,7 @@ pub fn payload_json(p: &Payload) -> Value {
         Payload::Tlvs(b, 0) => json!({"ty": "tlvs", "v": rl(b)}),
         Payload::Tlvs(b, adv) => json!({"ty": "tlvs", "v": rl(b), "adv": adv}),
         Payload::Raw(b) => json!({"ty": "raw", "v": rl(b)}),
+        Payload::Custom(b, ret) => json!({"ty": "custom", "v": rl(b), "ret": ret}),
     }
 }
 
@@ -155,6 +169,7 @@ pub fn payload_from(v: &Value) -> Payload {
         "type" => Payload::Type(type_from(v["name"].as_str().unwrap())),
         "tlvs" => Payload::Tlvs(unrl(&v["v"]), v.get("adv").and_then(|a| a.as_u64()).unwrap_or(0) as usize),
         "raw" => Payload::Raw(unrl(&v["v"])),
+        "custom" => Payload::Custom(unrl(&v["v"]), v["ret"].as_u64().unwrap_or(0) as usize),
         ty => Payload::Int { ty: ty.to_string(), neg: v["neg"].as_bool().unwrap(), mag: unflat(&v["mag"]) },
     }
 }
@@ -249,6 +264,7 @@ fn with_dyn<R>(p: &Payload, f: &mut dyn FnMut(&dyn WriteToHeader) -> R) -> R {
         Payload::Type(t) => f(t),
         Payload::Tlvs(b, adv) => f(&advanced(b, *adv)),
         Payload::Raw(b) => f(&RawWrite(b.as_slice())),
+        Payload::Custom(b, ret) => f(&CustomWrite(b.as_slice(), *ret)),
     }
 }
 
@@ -292,6 +308,7 @@ fn write_one(b: Builder, p: &Payload) -> io::Result<Builder> {
         Payload::Type(t) => b.write_payload(*t),
         Payload::Tlvs(v, adv) => b.write_payload(advanced(v, *adv)),
         Payload::Raw(v) => b.write_payload(RawWrite(v.as_slice())),
+        Payload::Custom(v, ret) => b.write_payload(CustomWrite(v.as_slice(), *ret)),
     }
 }
 
@@ -303,7 +320,7 @@ fn write_many(b: Builder, ps: &[Payload], lazy: bool) -> io::Result<Builder> {
         I8(i8), I16(i16), I32(i32), I64(i64), I128(i128), Isize(isize),
         Slice(&'a [u8]), Addr(v2::Addresses), Tlv(TypeLengthValue<'a>),
         PairRaw((u8, &'a [u8])), PairNamed((Type, &'a [u8])), Type(Type), Tlvs(TypeLengthValues<'a>),
-        Raw(RawWrite<'a>),
+        Raw(RawWrite<'a>), Custom(CustomWrite<'a>),
     }
     let held: Vec<Held> = ps
         .iter()
@@ -335,6 +352,7 @@ fn write_many(b: Builder, ps: &[Payload], lazy: bool) -> io::Result<Builder> {
             Payload::Type(t) => Held::Type(*t),
             Payload::Tlvs(v, adv) => Held::Tlvs(advanced(v, *adv)),
             Payload::Raw(v) => Held::Raw(RawWrite(v.as_slice())),
+            Payload::Custom(v, ret) => Held::Custom(CustomWrite(v.as_slice(), *ret)),
         })
         .collect();
     let refs: Vec<&dyn WriteToHeader> = held
@@ -345,7 +363,7 @@ fn write_many(b: Builder, ps: &[Payload], lazy: bool) -> io::Result<Builder> {
                 Held::U128(x) => x, Held::Usize(x) => x, Held::I8(x) => x, Held::I16(x) => x,
                 Held::I32(x) => x, Held::I64(x) => x, Held::I128(x) => x, Held::Isize(x) => x,
                 Held::Slice(x) => x, Held::Addr(x) => x, Held::Tlv(x) => x, Held::PairRaw(x) => x,
-                Held::PairNamed(x) => x, Held::Type(x) => x, Held::Tlvs(x) => x, Held::Raw(x) => x,
+                Held::PairNamed(x) => x, Held::Type(x) => x, Held::Tlvs(x) => x, Held::Raw(x) => x, Held::Custom(x) => x,
             }
         })
         .collect();
@@ -1011,6 +1029,32 @@ pub fn generate_builder(name: &str, count: usize, rng: &mut Rng, out: &mut dyn W
                 }
                 ops.push(Op::Build);
                 n += run_ops(&format!("bbatch-{}", i), &json!({"g": "bbatch"}), &ops, out);
+            }
+        }
+        // user-defined payload types (the trait is public): composites that append several TLVs and
+        // return how many, writers that return 0 or a number unrelated to what they appended -
+        // alone, in batches, before / after set_length, around the 65535 mark
+        "bcustom" => {
+            for i in 0..count {
+                let ctor = random_ctor(rng, false);
+                let mut ops = vec![ctor];
+                let two_tlvs: Vec<u8> = vec![4, 0, 1, 0xAA, 0x21, 0, 2, 1, 2];
+                let big: Vec<u8> = { let mut v = vec![4u8, 0x9c, 0x40]; v.extend(vec![0x11u8; 40000]); let mut w = v.clone(); w.extend(v); w };
+                let custom = match i % 6 {
+                    0 => Payload::Custom(two_tlvs.clone(), 2),
+                    1 => Payload::Custom(b"text written with write!".to_vec(), 0),
+                    2 => Payload::Custom(two_tlvs.clone(), 70000),
+                    3 => Payload::Custom(big.clone(), 2),
+                    4 => Payload::Custom(vec![], 17),
+                    _ => Payload::Custom(vec![7u8; 1 + rng.below(40) as usize], rng.below(100) as usize),
+                };
+                if rng.chance(1, 3) { ops.push(Op::SetLen(Some(*rng.pick(&[0u16, 9, 65535])))); }
+                if rng.chance(1, 2) { ops.push(Op::Write(random_payload(rng, false))); }
+                if i % 2 == 0 { ops.push(Op::Write(custom)); } else { ops.push(Op::Writes(vec![Payload::Slice(vec![1]), custom, Payload::Type(TYPES[i % 12].0)], i % 4 == 1)); }
+                if rng.chance(1, 3) { ops.push(Op::SetLen(None)); }
+                if rng.chance(1, 2) { ops.push(Op::Write(random_payload(rng, false))); }
+                ops.push(Op::Build);
+                n += run_ops(&format!("bcustom-{}", i), &json!({"g": "bcustom"}), &ops, out);
             }
         }
         // pairs of sessions that differ only in reservations / batching
